@@ -31,8 +31,12 @@ theorem safe_join_loop_eq (alts : List Char) (ps : List (List Char)) : ∀ parts
   | cons f rest ih =>
     intro parts
     unfold Gen.PyFns_Paths.safe_join.loop1 Paths.checkAll Paths.checkComp
-    simp only [norm1_eq, refuse_eq, ih]
+    -- rewrite every atom of the translated refusal test to the model's form ...
+    simp only [norm1_eq, ih, startswith_sep, startswith_dds, beq_dotdot, List.any_map,
+      Function.comp_def, contains_singleton, Paths.hasChar]
     generalize (if f = [] then f else Paths.normpath f) = g
+    -- ... and compare the two tests up to the order of their `or` operands
+    simp only [Bool.or_comm, Bool.or_left_comm]
     split
     · simp
     · cases Paths.checkAll alts rest <;> simp
